@@ -12,6 +12,7 @@ Histories are unbounded; the claim is reduced to per-operation obligations, each
     outputs of genrand64 against MT19937-64); the deterministic global simulator is re-bound before every run.
 """
 import numpy as np
+from fractions import Fraction
 
 from .common import Check
 from .stubs import ptr, sym_array
@@ -240,6 +241,85 @@ def rng_job(interp, c, case):
     u = R.ns["uniform_rv"]() if "uniform_rv" in R.funcs else None
 
 
+def _mutable_globals(R):
+    """module-level C variables of bioscrape.random that some function can change: names in a `global` statement and arrays"""
+    from Cython.Compiler import Nodes as N
+    from pyxsym.interp import _walk
+    from Cython.Compiler import ExprNodes as E
+    names = set()
+    for fn in _walk(R.tree):
+        if not isinstance(fn, (N.CFuncDefNode, N.DefNode)):
+            continue
+        glob, assigned = set(), set()
+        for node in _walk(fn.body):
+            if isinstance(node, N.GlobalNode):
+                glob |= set(node.names)
+            tg = []
+            if isinstance(node, (N.SingleAssignmentNode, N.InPlaceAssignmentNode)):
+                tg = [node.lhs]
+            elif isinstance(node, N.CascadedAssignmentNode):
+                tg = list(node.lhs_list)
+            elif isinstance(node, (N.ForInStatNode, N.ForFromStatNode)):
+                tg = [node.target]
+            assigned |= {t.name for t in tg if isinstance(t, E.NameNode)}
+        names |= glob & assigned
+    for nm, ty in R.gtypes.items():
+        if isinstance(ty, tuple) and ty[0] == "array":
+            names.add(nm)
+    return sorted(n for n in names if n in R.gtypes)
+
+
+def _junk_vars(v):
+    import z3
+    from z3 import z3util
+    out = set()
+    vs = v if isinstance(v, (list, tuple)) else [v]
+    for x in vs:
+        if is_sym(x):
+            out |= {str(t) for t in z3util.get_vars(x.z if hasattr(x, "z") else x._num().z)}
+    return {n for n in out if "junk" in n}
+
+
+def reseed_job(interp, c, case):
+    """history independence: from an arbitrary (symbolic) value of every mutable module-level variable of
+    bioscrape.random, seed_random(seed) followed by each sampler yields values in which nothing of the prior state appears,
+    and leaves nothing of it behind"""
+    seed, sampler = case
+    R = interp.load("bioscrape.random")
+    muts = _mutable_globals(R)
+    for nm in muts:
+        ty = R.gtypes[nm]
+        if isinstance(ty, tuple) and ty[0] == "array":
+            R.ns[nm] = [ctx().fresh_int("junk_" + nm, lo=0) for _ in range(ty[2])]
+        elif ty == "bint":
+            R.ns[nm] = ctx().fresh_int("junk_" + nm, lo=0, hi=1)
+        elif ty in ("double", "float"):
+            R.ns[nm] = ctx().fresh_real("junk_" + nm)
+        else:
+            R.ns[nm] = ctx().fresh_int("junk_" + nm, lo=0, hi=400)
+    rp = {"kind": "rng_history", "seed": seed}
+    n0 = len(c.pc)
+    R.ns["seed_random"](seed)
+    left = [nm for nm in muts if _junk_vars(R.ns[nm])]
+    ok = c.prove(not left, "seeding overwrites every mutable module-level variable of the generator (%s); still holding prior state: %s"
+                 % (", ".join(muts), left), info={"sig": "seed leaves prior generator state in %s" % left, "what": "rng state"})
+    if ok is False:
+        c.failures[-1]["replay"] = rp
+    calls = {"uniform": lambda: R.ns["uniform_rv"](), "normal": lambda: R.ns["normal_rv"](0, 1),
+             "exponential": lambda: R.ns["exponential_rv"](2), "gamma": lambda: R.ns["gamma_rv"](2, 1),
+             "erlang": lambda: R.ns["erlang_rv"](2, 1), "binomial": lambda: R.ns["binom_rnd"](3, Fraction(1, 3)),
+             "rand_int": lambda: R.ns["genrand64"]()}
+    outs = [calls[sampler]() for _ in range(3)]
+    dep = sorted(set().union(*[_junk_vars(o) for o in outs]))
+    branch = sorted(set().union(*[{str(t) for t in __import__("z3").z3util.get_vars(p_)} for p_ in c.pc[n0:]] or [set()]))
+    branch = [b for b in branch if "junk" in b]
+    ok = c.prove(not dep and not branch, "after seeding, three draws of %s mention nothing of the prior generator state "
+                 "(values depend on %s, control flow on %s)" % (sampler, dep, branch),
+                 info={"sig": "%s after seeding depends on prior state" % sampler, "what": "rng history %s" % sampler})
+    if ok is False:
+        c.failures[-1]["replay"] = dict(rp, sampler=sampler)
+
+
 def check(tier):
     from . import C05
     ck = Check("C08", "model_checking", tier)
@@ -252,6 +332,8 @@ def check(tier):
     ck.add("deterministic", "harness.C08", "rhs_job", dict(cases=[()]), fresh=True)
     for seed in (5489, 1, 2 ** 63 + 12345) + ((42, 2 ** 64 - 1) if tier == "thorough" else ()):
         ck.add("rng/%d" % seed, "harness.C08", "rng_job", dict(cases=[(seed,)]), fresh=True, exact=True)
+    for smp in ("uniform", "normal", "exponential", "erlang", "binomial", "rand_int"):       # gamma_rv: rejection loop over normal_rv / uniform_rv, not unrolled
+        ck.add("reseed/%s" % smp, "harness.C08", "reseed_job", dict(cases=[(12345, smp)]), fresh=True, exact=True)
     # loops do not write the model
     for cse in C05.cases("quick"):
         ck.add("ssa-step/S%dR%dT%d/ci%d" % cse, "harness.C05", "step_job", dict(cases=[cse], rules=True))
@@ -285,5 +367,6 @@ def check(tier):
             ck.add_mutant(name, m, w, "harness.C05", "step_job", dict(cases=[(2, 2, 2, 0), (2, 2, 2, 1)]))
         else:
             ck.add_mutant(name, m, w, "harness.C08", "rng_job", dict(cases=[(1,)]), fresh=True)
+    ck.validate = ['rng', 'ssa']
     ck.run()
     return ck.finish(replay=REPLAY)
